@@ -587,6 +587,27 @@ PROBES = [
     ("bb_b_put-reverts-in-ite", "bb_b_put(K, 1), ( ( bb_b_put(K, 3), fail ) -> true ; true ), bb_get(K, X)", 1),
 ]
 
+# the same clauses of the property text with blackboard values of every representation (the trailing decision of a
+# backtrackable store looks at the old value's cell: atoms, small/big integers, floats, strings, char lists, compounds, lists)
+VALUE_KINDS = [("atom", ["va", "vb", "vc"]), ("string", ['"Valladolid"', '"Salamanca"', '"Zamora"']), ("chars", ["[a,b,c]", "[d,e]", "[f]"]),
+               ("atom_chars", None), ("big", ["18446744073709551617", "-36893488147419103232", "73786976294838206465"]),
+               ("float", ["1.5", "-0.0", "2.25e10"]), ("compound", ['f(1,"s")', "g(h(2))", "f(a,[b])"]), ("intlist", ["[1,2,3]", "[4]", "[5,6]"]),
+               ("utf8", ['"\u00e9t\u00e9"', '"\u65e5\u672c"', '"z"']), ("mixed1", ['"abc"', "7", "at"]), ("mixed2", ["9", '"xyz"', "[q]"])]
+_n0 = len(PROBES)
+for _kind, _vals in VALUE_KINDS:
+    for _key, _q, _exp in list(PROBES[:_n0]):
+        if _vals is None:
+            _pre = "atom_chars(abc, V1), atom_chars(de, V2), atom_chars(fghijklmno, V3), "
+            _m = {1: "V1", 2: "V2", 3: "V3"}
+        else:
+            _pre = ""
+            _m = {1: _vals[0], 2: _vals[1], 3: _vals[2]}
+        _qq = _q
+        for _i in (1, 2, 3):
+            _qq = _qq.replace("(K, %d)" % _i, "(K, %s)" % _m[_i])
+        _qq = _pre + _qq.replace("bb_get(K, X)", "bb_get(K, X0), ( X0 == %s -> X = 1 ; X = 0 )" % _m[_exp])
+        PROBES.append((_key + ":" + _kind if not _key.startswith("bb_put-shadowed") else _key, _qq, 1))
+
 
 def run(ctx):
     rng = ctx.rng
